@@ -44,3 +44,23 @@ fn auto_num_threads(
             .min(available_threads.into()),
     }
 }
+
+#[cfg(feature = "verif-hooks")]
+pub(crate) mod verif_access {
+    use std::num::NonZeroUsize;
+
+    fn available(available: Option<usize>) -> Result<NonZeroUsize, std::io::Error> {
+        match available.and_then(NonZeroUsize::new) {
+            Some(x) => Ok(x),
+            None => Err(std::io::Error::new(std::io::ErrorKind::Other, "injected")),
+        }
+    }
+
+    pub fn set_num_threads(input_len: Option<usize>, avail: Option<usize>, num_threads: usize) -> usize {
+        super::set_num_threads(input_len, available(avail), num_threads)
+    }
+
+    pub fn auto_num_threads(input_len: Option<usize>, avail: Option<usize>) -> usize {
+        super::auto_num_threads(input_len, available(avail))
+    }
+}
